@@ -1322,6 +1322,15 @@ def c15_tasks(tier):
                     sc4["hook_exit_by_kind"] = {"teardown": 1}
                     tasks.append(dict(id=f"pipe-{'+'.join(combo)}-failing-teardown", scen=sc4, oracles=["Obs", "C15"],
                                       budget=(0, 0), cls="pipeline+failing-teardown"))
+                if not fails and n == 3 and combo[1] in ("one", "one-batch2") and combo[0] != "local":
+                    # every batch of the MIDDLE stage is refused by the scheduler: the stage ends with all its jobs missing,
+                    # the last stage still runs exactly once
+                    import copy
+
+                    scr = copy.deepcopy(sc)
+                    scr["refuse_scripts"] = ["output-stage2/job_batch_1.sh"]
+                    tasks.append(dict(id=f"pipe-{'+'.join(combo)}-stage2-refused", scen=scr, oracles=["Obs", "C15"],
+                                      budget=(0, 0), cls="pipeline+stage-refused"))
                 if not fails and "two-batches" in combo and (n <= 2 or tier == "thorough"):
                     import copy
 
@@ -1346,7 +1355,7 @@ def c15_tasks(tier):
 def c15(tier):
     tasks = c15_tasks(tier)
     bounds = ("pipelines of 1-3 (thorough 4) stages over 5 stage shapes (1 job; 2 jobs in 2 batches; 2 jobs in 1 batch; 2-job chain; local), stage configs with and without their own submission groups, "
-              "a failing job in stage 1, a refused batch (stage ends with missing jobs), a failing stage teardown command, squeue failing for a whole round, EDQUOT at any single write (L2), a failing job with cancel flags, a user-run try-submit-jobs on the current stage at any point, a duplicated stage-2 trigger at any later point; jade pipeline submit as the login process, next stages triggered by the real submit-next-stage; 1 preemption on <=2-stage pipelines (all in thorough) with the recovery actor on the current stage")
+              "a failing job in stage 1, a refused batch (stage ends with missing jobs), a middle stage whose only batch is refused, a failing stage teardown command, squeue failing for a whole round, EDQUOT at any single write (L2), a failing job with cancel flags, a user-run try-submit-jobs on the current stage at any point, a duplicated stage-2 trigger at any later point; jade pipeline submit as the login process, next stages triggered by the real submit-next-stage; 1 preemption on <=2-stage pipelines (all in thorough) with the recovery actor on the current stage")
     return explore_check("C15", tier, tasks, S_RULE, COMMON_ASSUMPTIONS + ["auto-config commands are not explored (they write relative to the process cwd); stage config files only"], dict(bounds=bounds))
 
 
